@@ -33,13 +33,14 @@ structure DSt where
   cur : Option Level
   dirty : List Nat
   cut : Option (Nat × Nat × Nat)   -- checkpoint: (level id, node, schedule tokens consumed before the save)
+  keyAfterRun : Bool               -- a composite's `_cached_internals` describe the state AFTER its run
 
 def emptyFin (n : Nat) : FinDag :=
   { n := n, slots := List.replicate n [], down := List.replicate n [], starters := [],
     onExec := List.replicate n false, fails := List.replicate n false, rank := List.replicate n 0 }
 
 def DSt.init : DSt :=
-  { n := 0, rc := RCfg.now, levels := [], cur := none, dirty := [], cut := none }
+  { n := 0, rc := RCfg.now, levels := [], cur := none, dirty := [], cut := none, keyAfterRun := true }
 
 def setAt {α} (l : List α) (i : Nat) (v : α) (dflt : α) : List α :=
   let l' := if l.length ≤ i then l ++ List.replicate (i + 1 - l.length) dflt else l
@@ -258,6 +259,44 @@ def forestOf (st : DSt) (rootId : Nat) : Forest :=
 def pathOf (f : Forest) (rootId : Nat) (fuel : Nat) (n : Nat) : String :=
   "/".intercalate ((f.chain fuel n).reverse.map fun i => if i == rootId then "w" else s!"n{i}")
 
+/-- did anything inside level `lid` change between the cached run and the reloaded graph: a leaf with
+new input values, or (unfaithful restore) a multiply connected input -/
+partial def innerChanged (st : DSt) (lid : Nat) : Bool :=
+  match findLevel st.levels lid with
+  | none => false
+  | some l =>
+    l.own.any (fun i => st.dirty.contains i) ||
+    (!st.rc.faithfulOrder && l.f.slots.any (fun sl => sl.any (fun cs => cs.length > 1))) ||
+    l.macros.any (fun (p : Nat × Nat) => innerChanged st p.2)
+
+/-- `_internal_cache_key` of a composite covers the unconnected inputs of ALL its descendants. The children
+of a NESTED macro get theirs (through value links) when that macro fetches — during the run of the outer
+composite. A key recorded before the run therefore never matches again once a nested macro has a
+connected input: such a composite cannot answer from its cache. -/
+partial def selfInvalid (st : DSt) (lid : Nat) : Bool :=
+  match findLevel st.levels lid with
+  | none => false
+  | some l => l.macros.any fun (p : Nat × Nat) =>
+      (l.f.slots.getD p.1 []).any (fun cs => !cs.isEmpty) || selfInvalid st p.2
+
+def compSet (st : DSt) (l : Level) : Nat → Bool :=
+  rerunSet st.rc l.isMacro (fun i => match l.macros.find? (·.1 == i) with
+    | some (_, lid2) => innerChanged st lid2 || (!st.keyAfterRun && selfInvalid st lid2)
+    | none => false)
+
+def resumedDag (st : DSt) (c : LvlCut) : Dag :=
+  let dl := reloadDag st.rc c.parent.isNone c.d
+  { slots := dl.slots, down := fun i => c.l.down2.getD i [], starters := c.l.starters2,
+    onExec := fun i => c.l.exec2.getD i false, fails := fun _ => false }
+
+/-- a level (and everything below it) whose composite answered from its cache: nothing runs -/
+partial def notrunTree (st : DSt) (cuts : List LvlCut) (lid : Nat) : List (Nat × RS × RS × String) :=
+  match cuts.find? (fun (c : LvlCut) => c.l.id == lid) with
+  | none => []
+  | some c =>
+    let rs0 := resumeFromC st.rc (compSet st c.l) (resumedDag st c) c.s
+    (lid, rs0, rs0, "notrun") :: (c.l.macros.map fun (p : Nat × Nat) => notrunTree st cuts p.2).flatten
+
 structure LvlRun where
   rs0 : RS
   rs : RS
@@ -277,15 +316,13 @@ partial def resumeTree (st : DSt) (cuts : List LvlCut) (lid : Nat) (envChanged :
   | none => []
   | some c =>
     let l := c.l
-    let dl := reloadDag st.rc c.parent.isNone c.d
-    let d2 : Dag := { slots := dl.slots, down := fun i => l.down2.getD i [], starters := l.starters2,
-                      onExec := fun i => l.exec2.getD i false, fails := fun _ => false }
+    let d2 : Dag := resumedDag st c
     let envDirty : Nat → Bool := fun i =>
       (match l.ui.find? (·.1 == i) with | some (_, k) => envChanged.getD k false | none => false) ||
       l.vlink.any (fun (x : Nat × Nat × Nat) => x.1 == i && !l.isMacro i && envChanged.getD x.2.2 false)
     let runWith : List Nat → LvlRun := fun macroDirty =>
       let fx : Fix := { dirty := fun i => st.dirty.contains i || envDirty i || macroDirty.contains i, off := st.n }
-      let rs0 := resumeFromC st.rc l.isMacro d2 c.s
+      let rs0 := resumeFromC st.rc (compSet st l) d2 c.s
       let (rs, fin) := drive (·.s) (rstep fx Cfg.repaired d2) (fun _ _ => false) (fuelOf l.f.n) rs0 l.sched2 0 0
       let below : List (Nat × Nat × List (Nat × RS × RS × String)) := l.macros.map fun (p : Nat × Nat) =>
         let g := p.1
@@ -295,7 +332,9 @@ partial def resumeTree (st : DSt) (cuts : List LvlCut) (lid : Nat) (envChanged :
           match l.vlink.find? (fun (x : Nat × Nat × Nat) => x.1 == g && x.2.1 == idx) with
           | some (_, _, k) => envChanged.getD k false
           | none => c.s.st g != St.idle && decide (a1.getD idx Val.nd ≠ a2.getD idx Val.nd)
-        (g, p.2, resumeTree st cuts p.2 ch)
+        -- a composite child that answered from its cache does not run its sub-graph
+        let hit := rs.fcalls g == 0 && rs.s.st g == St.done
+        (g, p.2, if hit then notrunTree st cuts p.2 else resumeTree st cuts p.2 ch)
       let md : List Nat := (below.filter fun (q : Nat × Nat × List (Nat × RS × RS × String)) =>
         match q.2.2, cuts.find? (fun (c2 : LvlCut) => c2.l.id == q.2.1) with
         | (_, _, rs2, _) :: _, some c2 =>
@@ -349,7 +388,7 @@ def runCase (st : DSt) : List String :=
     let perLevel := ls.map fun l =>
       let tag := s!"L{l.id}"
       match cutOf l.id, resOf l.id with
-      | some c, some (_, rs0, rs, fin) =>
+      | some c, some (_, _, rs, fin) =>
         let f2 : FinDag := { l.f with down := l.down2, starters := l.starters2, onExec := l.exec2 }
         let sn := snapshot st.rc c.s
         let envC := envOf viewCut l.id
@@ -361,7 +400,8 @@ def runCase (st : DSt) : List String :=
               s!"{i}:" ++ (if sn.failed i then "F" else if sn.running i then "R" else "-")),
           s!"{tag} cut out " ++ " ".intercalate (l.own.map fun i =>
               s!"{i}:" ++ (if l.isMacro i then "*" else showExp viewCut l.id envC (c.s.out i))),
-          s!"{tag} cut cache " ++ " ".intercalate (l.own.map fun i => s!"{i}:" ++ (if (rs0.cache i).isSome then "1" else "0")),
+          s!"{tag} cut cache " ++ " ".intercalate (l.own.map fun i => s!"{i}:" ++
+              (if l.isMacro i && !st.rc.keepCompositeCache then "0" else if (sn.cache i).isSome then "1" else "0")),
           s!"{tag} cut recv " ++ " ".intercalate (l.own.map fun i => s!"{i}:{showNats (uniqSorted (sn.received i))}"),
           s!"{tag} res end {fin}",
           s!"{tag} res outcome {outcome}",
@@ -395,12 +435,13 @@ def withCur (s : DSt) (g : Level → Option Level) : DSt × List String :=
 
 def step' (s : DSt) (ws : List String) : DSt × List String :=
   match ws with
-  | ["cfg", r, dfl, cf, sr, fo] =>
-    match parseBool r, parseBool dfl, parseBool cf, parseBool sr, parseBool fo with
-    | some r, some dfl, some cf, some sr, some fo =>
+  | ["cfg", r, dfl, cf, sr, fo, kc, ka] =>
+    match parseBool r, parseBool dfl, parseBool cf, parseBool sr, parseBool fo, parseBool kc, parseBool ka with
+    | some r, some dfl, some cf, some sr, some fo, some kc, some ka =>
       ({ s with rc := { cache := { Cache.Cfg.repaired with clearOnFail := cf }, dropInFlight := dfl,
-                        resetReceived := r, silentRelink := sr, faithfulOrder := fo } }, [])
-    | _, _, _, _, _ => (s, ["bad-op"])
+                        resetReceived := r, silentRelink := sr, faithfulOrder := fo, keepCompositeCache := kc },
+                keyAfterRun := ka }, [])
+    | _, _, _, _, _, _, _ => (s, ["bad-op"])
   | ["n", n] => match n.toNat? with
     | some n => ({ s with n := n }, [])
     | none => (s, ["bad-op"])
